@@ -59,7 +59,10 @@ def run(ck: vlib.Check):
     # sounds with one file name in different archive directories (and different lengths), in both listing orders
     for b in ("scx1", "scm0"):
         jobs.append({"kind": "same-basename", "base": b,
-                     "members": [["music\\theme.wav", 2500], ["staredit\\wav\\theme.wav", 1000]]})
+                     "members": [["music\\theme.wav", 2500], ["staredit\\wav\\theme.wav", 1001]]})
+        # lengths at which frames / rate * 1000 is not exact in floating point (8008 frames at 8000 Hz = 1001 ms)
+        jobs.append({"kind": "same-basename", "base": b,
+                     "members": [["staredit\\wav\\a1001.wav", 1001], ["staredit\\wav\\a1003.wav", 1003], ["staredit\\wav\\a37.wav", 37]]})
         jobs.append({"kind": "same-basename", "base": b,
                      "members": [["staredit\\wav\\theme.wav", 700], ["a\\theme.wav", 1300], ["z\\theme.wav", 300]]})
     results = run_jobs(jobs)
